@@ -1161,13 +1161,36 @@ func (rc *RegClient) imageExportDescriptor(ctx context.Context, r ref.Ref, desc 
 		// blob has already been imported into tar, skip
 		return nil
 	}
-	switch desc.MediaType {
+	mt := desc.MediaType
+	var m manifest.Manifest
+	switch mt {
+	case mediatype.Docker1Manifest, mediatype.Docker1ManifestSigned, mediatype.Docker2Manifest, mediatype.OCI1Manifest,
+		mediatype.Docker2ManifestList, mediatype.OCI1ManifestList,
+		mediatype.Docker2ImageConfig, mediatype.OCI1ImageConfig,
+		mediatype.Docker2Layer, mediatype.Docker2LayerGzip, mediatype.Docker2LayerZstd,
+		mediatype.OCI1Layer, mediatype.OCI1LayerGzip, mediatype.OCI1LayerZstd,
+		mediatype.BuildkitCacheConfig:
+		// known media types
+	default:
+		// unknown media type, content the source serves as a manifest is exported with everything it references
+		if mTry, err := rc.ManifestGet(ctx, r, WithManifestDesc(desc)); err == nil {
+			m = mTry
+			mt = mediatype.OCI1Manifest
+			if m.IsList() {
+				mt = mediatype.OCI1ManifestList
+			}
+		}
+	}
+	switch mt {
 	case mediatype.Docker1Manifest, mediatype.Docker1ManifestSigned, mediatype.Docker2Manifest, mediatype.OCI1Manifest:
 		// Handle single platform manifests
 		// retrieve manifest
-		m, err := rc.ManifestGet(ctx, r, WithManifestDesc(desc))
-		if err != nil {
-			return err
+		var err error
+		if m == nil {
+			m, err = rc.ManifestGet(ctx, r, WithManifestDesc(desc))
+			if err != nil {
+				return err
+			}
 		}
 		mi, ok := m.(manifest.Imager)
 		if !ok {
@@ -1218,9 +1241,12 @@ func (rc *RegClient) imageExportDescriptor(ctx context.Context, r ref.Ref, desc 
 	case mediatype.Docker2ManifestList, mediatype.OCI1ManifestList:
 		// handle OCI index and Docker manifest list
 		// retrieve manifest
-		m, err := rc.ManifestGet(ctx, r, WithManifestDesc(desc))
-		if err != nil {
-			return err
+		var err error
+		if m == nil {
+			m, err = rc.ManifestGet(ctx, r, WithManifestDesc(desc))
+			if err != nil {
+				return err
+			}
 		}
 		mi, ok := m.(manifest.Indexer)
 		if !ok {
